@@ -31,6 +31,11 @@ HULL = {"Segment", "ConvexPolygon", "ConvexPolyhedron", "get_segment_from_point_
 UNKNOWN = ("?",)
 
 
+def _is_chain(fi: FunctionInfo, name: str) -> bool:
+    b = fi.resolve(name)
+    return b is not None and b.kind == "ext" and str(b.target) == "itertools.chain"
+
+
 def canon(d) -> str:
     k = d[0]
     if k == "op":
@@ -245,8 +250,9 @@ class Origins:
         out = self._ev(e, r, local)
         if not isinstance(e, (ast.Name, ast.IfExp, ast.BinOp, ast.Tuple, ast.List, ast.Set, ast.GeneratorExp, ast.ListComp, ast.SetComp)):
             transparent = isinstance(e, ast.Call) and (
-                (isinstance(e.func, ast.Name) and (e.func.id in HULL or e.func.id in ("list", "tuple", "set", "sorted", "frozenset", "iter", "next", "reversed")))
-                or (isinstance(e.func, ast.Attribute) and e.func.attr in ("union", "copy"))
+                (isinstance(e.func, ast.Name) and (e.func.id in HULL or e.func.id in ("list", "tuple", "set", "sorted", "frozenset", "iter", "next", "reversed")
+                                                   or _is_chain(r.fi, e.func.id)))
+                or (isinstance(e.func, ast.Attribute) and e.func.attr in ("union", "copy", "values"))
                 or txt(e.func) == "copy.deepcopy")
             transparent = transparent or (isinstance(e, ast.Subscript) and (isinstance(e.value, ast.Name) or (
                 isinstance(e.value, ast.Call) and isinstance(e.value.func, ast.Name) and e.value.func.id in ("list", "tuple", "sorted"))))
@@ -324,6 +330,11 @@ class Origins:
                     return out
                 if n in ("list", "tuple", "set", "sorted", "frozenset", "iter", "next", "reversed") and e.args:
                     return self.ev(e.args[0], r, local)
+                if _is_chain(r.fi, n):
+                    out = set()
+                    for a in e.args:  # chain(X, Y): the collections one after the other
+                        out |= self.ev(a, r, local)
+                    return out
                 if self.is_helper(n):
                     h = self.fns[n]
                     hs = self.analyse(n)
@@ -349,7 +360,7 @@ class Origins:
                     for a in e.args:
                         out |= self.ev(a, r, local)
                     return out
-                if fn.attr == "copy":
+                if fn.attr in ("copy", "values"):
                     return self.ev(fn.value, r, local)
         return set()
 
@@ -370,6 +381,10 @@ class Origins:
             return self.ev(it, r, local)  # local container
         if isinstance(it, ast.Call) and isinstance(it.func, ast.Name) and it.func.id in ("range", "enumerate", "zip"):
             return set()
+        if isinstance(it, ast.Call) and isinstance(it.func, ast.Name) and self.is_helper(it.func.id):
+            return self.ev(it, r, local)  # a hit-set helper returns a container: it holds its element origins directly
+        if isinstance(it, ast.Call) and isinstance(it.func, ast.Attribute) and it.func.attr in ("union", "copy", "values"):
+            return self.ev(it, r, local)
         return {("elem", o) for o in self.ev(it, r, local) if o != UNKNOWN}
 
     def stmt(self, st, r: FnOrigins, par):
@@ -382,6 +397,12 @@ class Origins:
                 if isinstance(t, ast.Name):
                     o = self.ev(st.value, r)
                     r.var[t.id] = set(o)
+                    r.assigns.append((st, FS(o & self._gen)))
+                elif isinstance(t, ast.Subscript) and isinstance(t.value, ast.Name) and t.value.id not in r.fi.params:
+                    # d[key] = value on a local container
+                    o = self.ev(st.value, r)
+                    r.var.setdefault(t.value.id, set()).update(o)
+                    r.contrib.append((t.value.id, st, FS(o)))
                     r.assigns.append((st, FS(o & self._gen)))
                 elif isinstance(t, (ast.Tuple, ast.List)) and isinstance(st.value, (ast.Tuple, ast.List)) \
                         and len(t.elts) == len(st.value.elts):
@@ -397,7 +418,8 @@ class Origins:
         elif isinstance(st, ast.Expr):
             c = st.value
             if isinstance(c, ast.Call) and isinstance(c.func, ast.Attribute) and isinstance(c.func.value, ast.Name) \
-                    and c.func.attr in ("add", "append", "update", "extend", "insert") and c.args:
+                    and (c.func.attr in ("add", "append", "update", "extend", "insert") and c.args
+                         or c.func.attr == "setdefault" and len(c.args) == 2):
                 v = c.func.value.id
                 o = self.ev(c.args[-1], r)
                 r.var.setdefault(v, set()).update(o)
